@@ -13,11 +13,11 @@ CHECKS = {
          "Every constant the library exposes is evaluated by the type checker under every distribution target and compared with the vendored UAPI values; stubs are shown call-free; the unsupported-architecture path is a dominance fact. Exhaustive over the finite target list.",
          "Trusted: go/types, go list file selection, oracle.json (linux/seccomp.h, prctl.h, errno headers; mips ENOSYS recorded by hand).",
          "DESIGN.md section 4, C19"),
- "C14": ("other", "table agreement (parser and printer read one injective lower-case map; Operations = const block), SSA guard/dominance check of the Unpack methods, struct-tag key agreement and numeric-validator check over all types reachable from Policy; which decoder the sandbox reaches",
+ "C14": ("other", "table agreement (parser and printer read one injective lower-case map; Operations = const block), SSA guard/dominance check of the Unpack methods, struct-tag key agreement and numeric-validator check over all types reachable from Policy; which decoder the sandbox reaches, that the parsed document is the whole file and that the Unpack target is an untouched local; marshaller options (omitempty on numeric fields)",
          "Decides the name-table and key-agreement clauses (necessary conditions of the round trip); the behaviour of go-ucfg / yaml.v2 on concrete documents is third-party run-time behaviour and is not claimed.",
          "Trusted: go/types, go/ssa, tag-key conventions of go-ucfg, yaml.v2 and encoding/json. go-ucfg numeric validators (required/nonzero/positive/min/max) as in v0.8. Not covered: number widths, validators on non-numeric fields, concrete documents.",
          "DESIGN.md section 4, C14"),
- "C08": ("other", "SSA value-flow chain followed backwards from the installation call through helper functions: seccomp(2) arg 3 <- SockFprog{Len: len(S), Filter: &S[0]} <- S = element-wise conversion (counted-loop abstraction: every index once, unconditional body, field-for-field) of exactly the slice returned by bpf.Assemble <- Policy.Assemble of filter.Policy; wrapper parameters reach the raw syscall through conversions only; when LoadFilter is split into helpers/closures the same chain is decided on the loader's event traces (engine E8: path enumeration with fallible-call forks and path-specific value following); plus `requires`: the rules of C01-C06 (the compiled program's decisions) and of C09 (nil only if the filter is in force) are run on the same loaded program and a violation of any of them is reported as a violation of C08",
+ "C08": ("other", "SSA value-flow chain followed backwards from the installation call through helper functions: seccomp(2) arg 3 <- SockFprog{Len: len(S), Filter: &S[0]} <- S = element-wise conversion (counted-loop abstraction: every index once, unconditional body, field-for-field) of exactly the slice returned by bpf.Assemble <- Policy.Assemble of filter.Policy; wrapper parameters reach the raw syscall through conversions only; when LoadFilter is split into helpers/closures the same chain is decided on the loader's event traces (engine E8: path enumeration with fallible-call forks and path-specific value following); plus `requires`: the rules of C01-C06 (the compiled program's decisions), of C09 (nil only if the filter is in force) and of C12 (numbers and audit-architecture word are the kernel's) are run on the same loaded program and a violation of any of them is reported as a violation of C08",
          "Program-identity clause only (second sentence of the property). The kernel's decisions after the load are run-time behaviour: not applicable to static analysis and not claimed.",
          "Trusted: go/ssa, SYS_SECCOMP oracle, bpf.Assemble maps one instruction to one raw instruction.",
          "DESIGN.md section 4, C08"),
@@ -25,7 +25,7 @@ CHECKS = {
          "All paths through the loader, including the failure paths no test executes; kernel return-value contract is trusted (seccomp(2), prctl(2)).",
          "Trusted: go/ssa dominators; seccomp(2) RETURN VALUE section (TSYNC: positive tid, errno 0); kernel answers EINVAL to (STRICT, flags!=0).",
          "DESIGN.md section 4, C09"),
- "C10": ("other", "SSA value-origin: Filter.Flag reaches syscall argument 2 through conversions only; flag constants vs UAPI; sandbox literal carries TSYNC; the flag argument is resolved along the loader's event traces (E8) when the call sits in a helper or closure",
+ "C10": ("other", "SSA value-origin: Filter.Flag reaches syscall argument 2 through conversions only; flag constants vs UAPI; sandbox literal carries TSYNC; the flag argument is resolved along the loader's event traces (E8) when the call sits in a helper or closure; plus `requires`: the rules of C09 (a nil result means the kernel attached the filter) are run on the same loaded program",
          "Flag-word clause only; 'every thread under every schedule' is the kernel's seccomp_sync_threads plus the scheduler: not applicable to static analysis and not claimed.",
          "Trusted: go/ssa; linux/seccomp.h flag values.",
          "DESIGN.md section 4, C10"),
@@ -45,7 +45,7 @@ CHECKS = {
          "Decides which file states any crash point or disassembler failure can leave under the trusted name from the shape of the writer (all paths).",
          "Trusted: go/ssa dominators, atomic rename within a directory, exec.Cmd.Run error contract. Not covered: directory fsync durability (not in the statement).",
          "DESIGN.md section 4, C17"),
- "C18": ("other", "abstract interpretation of the profiler's list handling (engine E7): every string collection is mapped to a set expression over the base sets F, BL, AL, ARCH by summarising element-wise loops (any spelling) under the membership tests on each path, helpers are followed, `len(flag) > 0` joins are resolved; the result is compared with the specified expression by a 16-row truth table; duplicate-freeness, name validity and sortedness are attributes of the abstract value; typed AST of the profile literal, parsed text/template, tag/key agreement, single-YAML-document rule; plus `requires`: the rules of C14 (configuration path) and C01 (allow-list semantics) are run on the same loaded program",
+ "C18": ("other", "abstract interpretation of the profiler's list handling (engine E7): every string collection is mapped to a set expression over the base sets F, BL, AL, ARCH by summarising element-wise loops (any spelling) under the membership tests on each path, helpers are followed, `len(flag) > 0` joins are resolved; the result is compared with the specified expression by a 16-row truth table; duplicate-freeness, name validity and sortedness are attributes of the abstract value; typed AST of the profile literal, parsed text/template, tag/key agreement, single-YAML-document rule; plus `requires`: the rules of C14 (configuration path), C01 (allow-list semantics) and C16 (the reported names are table entries of the reported numbers) are run on the same loaded program",
          "Decides the first sentence of the property exactly (set equation for all inputs with disjoint flag sets, sorted, duplicate-free, valid names) and, for the second sentence, the document layout / keys / single-document necessary conditions; how go-ucfg and yaml.v2 parse a concrete document is third-party run-time behaviour and is not claimed.",
          "Trusted: go/ssa, sort.Strings, text/template/parse, yaml.v2 key conventions and marker-free Marshal output; relies on C12 (injective tables) and C16 (Name = table[Num]). A construct the interpreter does not model makes the obligation undecided (fails).",
          "DESIGN.md section 4, C18"),
@@ -53,7 +53,7 @@ CHECKS = {
          "All reachable code on all paths: no write can touch caller-owned or package-level memory (one whitelisted cell), no order-sensitive map iteration; determinism, input immutability and race-freedom for distinct policy values follow.",
          "Trusted: go/ssa; the points-to analysis is a field- and context-insensitive over-approximation with explicit summaries for builtins, sort/slices mutators and read-only packages; an unsummarised call receiving caller/global memory fails the check.",
          "DESIGN.md section 4, C13"),
- "C01": ("other; plus `requires`: the rules of C06 (the patcher keeps the label-level meaning at every size) are run on the same loaded program and a violation is reported as a violation of this property", "emitter automaton (E1): path-sensitive event automaton of the code generator over go/ssa, label resolution, whole-program object graph with symbolic fragment lengths; spine reachability along no-match edges, entry/action edge rules, accumulator typing, value-origin of the compared number, return-builder contract; effect analysis: compiling writes no memory reachable from the policy",
+ "C01": ("other; plus `requires`: the rules of C06 (the patcher keeps the label-level meaning at every size) are run on the same loaded program and a violation is reported as a violation of this property", "emitter automaton (E1): path-sensitive event automaton of the code generator over go/ssa, label resolution, whole-program object graph with symbolic fragment lengths; spine reachability along no-match edges, entry/action edge rules, accumulator typing, value-origin of the compared number, return-builder contract; effect analysis (E1.readonly): compiling writes no memory reachable from the policy and no package-level state, and nothing outside package initialisation writes a package-level variable the compile path reads; core.loopvar: no escaping closure captures a loop variable shared between iterations under the module's language version",
          "A complete argument on the schema of all label-level programs (every policy maps into the analysed graph): first matching group else default, errno carries EPERM. Stated at label level; equality with emitted lists above 255 instructions is C06 (necessary conditions only), which is why the level is `other` and not `proof`.",
          "Trusted: go/ssa, cBPF semantics, syscall tables (C12), the E1 engine itself. Conservative: a construct the automaton does not model fails the check.",
          "DESIGN.md sections 2.2 and 4, C01"),
@@ -77,7 +77,7 @@ CHECKS = {
          "Necessary conditions only (each one the reason of a real or seeded defect): full behavioural equivalence of the patcher is an inductive invariant over mutable state and is NOT claimed.",
          "Trusted: go/ssa, cBPF jump semantics. A sufficient discipline is recognised for the order rule, so a differently organised correct patcher could be reported (stated conservatism).",
          "DESIGN.md section 4, C06"),
- "C07": ("other", "dominance and guard-shape rules for every listed rejection (resolved on value origins), nil-on-error over the compile call graph, sibling agreement of four operation tables (constants, Operations, validated set, lowered set from the E1 automaton), unreachability of the patcher's own errors at label level, enumeration of panic sites (gc prove pass listing + SSA scan + nil guards); every listed name ends in entry, merge or problem; the validated group is the policy's own group",
+ "C07": ("other", "dominance and guard-shape rules for every listed rejection (resolved on value origins), nil-on-error over the compile call graph, sibling agreement of four operation tables (constants, Operations, validated set, lowered set from the E1 automaton), unreachability of the patcher's own errors at label level, enumeration of panic sites (gc prove pass listing + SSA scan + nil guards); every listed name ends in entry, merge or problem; the validated group is the policy's own group; the converse clause as a closed-world rule (E3.accept-closed): every error origination site of the compile call graph is decided, on its nearest branches, by the rejecting side of one of the listed defect classes; bounds-check listing for every module package on the compile path, value-dependent panic sites (make, Repeat, Grow, Must*, division)",
          "Every listed defect class is rejected before emission with (nil, error) on all paths; nothing is silently dropped; panics inside the patcher's index arithmetic are assumed under C06, not proved.",
          "Trusted: go/ssa dominators, gc prove pass, E1 engine.",
          "DESIGN.md section 4, C07"),
